@@ -108,6 +108,20 @@ Print Assumptions C09_partial_auc.
 
 (* the hypotheses are satisfiable: binary64 neighbours, 2 easy positives, 1 easy negative; all four metrics at
    targets whose materialised threshold lies inside the scored range *)
+
+(* ---- binary64: the only facts about np.nextafter used above, x < succ x and pred x < x, are theorems about the executable
+   binary64 model (succ64_gt, pred64_lt in Proofs/CarrierB64.v), so every statement above that quantifies over succ / pred
+   holds of that model with no hypothesis on nextafter left.  The statement of X_binary64 is the statement of X with
+   succ := succ64, pred := pred64 and the two hypotheses discharged (computed from X's own type, so it cannot drift). ---- *)
+Theorem C09_thresholds_class_metrics_partial_binary64 :
+  ltac:(let t := type of (on_binary64 C09_thresholds_class_metrics_partial) in let t' := eval cbv beta in t in exact t').
+Proof. exact (on_binary64 C09_thresholds_class_metrics_partial). Qed.
+Print Assumptions C09_thresholds_class_metrics_partial_binary64.
+Theorem C09_thresholds_pooled_metrics_partial_binary64 :
+  ltac:(let t := type of (on_binary64 C09_thresholds_pooled_metrics_partial) in let t' := eval cbv beta in t in exact t').
+Proof. exact (on_binary64 C09_thresholds_pooled_metrics_partial). Qed.
+Print Assumptions C09_thresholds_pooled_metrics_partial_binary64.
+
 Example C09_thresholds_example :
   let s := mk_scores [2#1; 3#1; 5#1] [1#1; 2#1; 4#1] 2 1 Pos Neg true in
   wf s /\ beyond_own s (9#1) (-5#1) /\
